@@ -153,3 +153,28 @@ pub fn copy_into(dst: &mut [u8; 32], from: usize, to: usize, src: &[u8])
 { dst[from..to].copy_from_slice(src) }
 #[verifier::external_body]
 pub fn zeros(n: usize) -> (r: Vec<u8>) ensures r@.len() == n, forall|i: int| 0 <= i < n ==> r@[i] == 0u8 { vec![0u8; n] }
+
+// ---- Algorithms 4 and 5 (7.6.3.4): the U value ------------------------------------------------------------------
+pub open spec fn alg4(file_key: Seq<u8>) -> Seq<u8> { rc4(file_key, pad_string()) }
+/// Algorithm 5 defines the first 16 bytes of U; the other 16 are arbitrary
+pub open spec fn alg5_16(file_key: Seq<u8>, id0: Seq<u8>) -> Seq<u8> { rc4_rounds(file_key, rc4(file_key, md5(pad_string() + id0)), 19) }
+pub proof fn lemma_rc4_len(key: Seq<u8>, data: Seq<u8>) ensures rc4(key, data).len() == data.len() { }
+pub proof fn lemma_rc4_rounds_len(key: Seq<u8>, data: Seq<u8>, k: int) requires 0 <= k ensures rc4_rounds(key, data, k).len() == data.len() decreases k
+{ if k > 0 { lemma_rc4_rounds_len(key, data, k - 1); } }
+pub proof fn lemma_alg2_len(pw: Seq<u8>, o: Seq<u8>, p: nat, id0: Seq<u8>, revision: int, em: bool, l: Option<usize>)
+    requires 0 <= key_bytes(revision, l) <= 16
+    ensures alg2(pw, o, p, id0, revision, em, l).len() == key_bytes(revision, l)
+{
+    let n = key_bytes(revision, l);
+    axiom_md5_len(alg2_input(pw, o, p, id0, revision, em));
+    lemma_rounds_len(md5(alg2_input(pw, o, p, id0, revision, em)), n, 50);
+}
+#[verifier::external_body]
+pub fn resize_zero(v: &mut Vec<u8>, n: usize)
+    ensures final(v)@.len() == n, forall|i: int| 0 <= i < n && i < old(v)@.len() ==> final(v)@[i] == old(v)@[i]
+{ v.resize(n, 0) }
+#[verifier::external_body]
+pub fn fill_random_from(v: &mut Vec<u8>, from: usize)
+    requires from <= old(v)@.len()
+    ensures final(v)@.len() == old(v)@.len(), final(v)@.subrange(0, from as int) == old(v)@.subrange(0, from as int)
+{ unimplemented!() }
